@@ -44,7 +44,7 @@ class G:
                 return ("%s : %d;" % (bt, width), None, "bfpad", None)
             return ("%s %s : %d;" % (bt, name, width), name, "bf", bt)
         if k < 0.62 or depth > 1:
-            t, _ = r.choice(SCALARS)
+            t, _ = r.choice(SCALARS) if r.random() < 0.85 else ("long double", 16)   # 16-byte aligned aggregates are the rare case of argument passing
             return ("%s %s;" % (t, name), name, "scalar", t)
         if k < 0.74:
             t, _ = r.choice(SCALARS[:13])
@@ -55,6 +55,8 @@ class G:
             arr = "[%d]" % r.randint(1, 3) if r.random() < 0.2 else ""
             return ("%s %s%s;" % (tn, name, arr), name, "agg" + ("arr" if arr else ""), tn)
         # anonymous or named inline struct/union
+        if r.random() < 0.06:
+            return ("struct { %s : 0; };" % r.choice(BF_TYPES)[0], ("anon", []), "anon", None)   # an empty member (GNU C) ends a run of bit-fields
         kind = r.choice(["struct", "union"])
         inner = []
         body = []
@@ -204,6 +206,8 @@ class G:
                 return "%Lg", ""
             if bt == "void *":
                 return "%p", ""
+            if bt == "enum e0":   # the signedness of the enum's compatible type is not an ABI matter (gcc: unsigned, psABI table: signed); members overlaid by other union members hold arbitrary bits
+                return "%lld", "(long long) (int) "
             return "%lld", "(long long) "
 
         common_c = []
@@ -438,7 +442,7 @@ def run(tier):
     th = tier == "thorough"
     seed = int(common.seed())
     c2m = os.path.join(build.build_lib("asan"), "c2m")
-    n = 6000 if th else 260
+    n = 6000 if th else 700
     tmp = tempfile.mkdtemp(prefix="vp-c08-")
     try:
         with ThreadPoolExecutor(max_workers=common.NCPU) as ex:
